@@ -65,6 +65,7 @@ package elastic
 //@   ensures[len] elen(b) == old(elen(b)) + len(p)
 //@   ensures[keep] forall k int :: 0 <= k && k < old(elen(b)) ==> eat(b, k) == old(eat(b, k))
 //@   ensures[data] forall k int :: 0 <= k && k < len(p) ==> eat(b, old(elen(b)) + k) == old(p[k])
+//@   ensures[buf] b.rb == nil || ((b.rb == old(b.rb) || fresh(b.rb)) && ((old(b.rb) != nil && b.rb.buf.base == old(b.rb.buf.base)) || fresh(b.rb.buf)))
 
 //@ func RingBuffer.Done
 //@   props C19
@@ -104,3 +105,35 @@ package elastic
 //@   modifies ring.Buffer.r, ring.Buffer.w, ring.Buffer.isEmpty
 //@   requires ewf(b)
 //@   ensures ewf(b) && elen(b) == 0
+
+// ---- mixed buffer (ring first, then an overflow list): order of buffered bytes ----
+// What is read first is the ring, then the list. New bytes must therefore never enter the ring while the list holds
+// older bytes, and whatever is written to the ring goes behind the ring's current content.
+//@ define rkeep(mb) = elen(mb.ringBuffer) >= old(elen(mb.ringBuffer)) && (forall k int :: (0 <= k && k < old(elen(mb.ringBuffer))) ==> eat(mb.ringBuffer, k) == old(eat(mb.ringBuffer, k)))
+//@ define rsame(mb) = elen(mb.ringBuffer) == old(elen(mb.ringBuffer)) && (forall k int :: (0 <= k && k < elen(mb.ringBuffer)) ==> eat(mb.ringBuffer, k) == old(eat(mb.ringBuffer, k)))
+
+//@ func Buffer.Write
+//@   props C01 C02 C10 C19
+//@   requires ewf(mb.ringBuffer) && (mb.ringBuffer.rb == nil || p.base != mb.ringBuffer.rb.buf.base)
+//@   ensures[wf] ewf(mb.ringBuffer)
+//@   ensures[order@C01,C02,C10,C19] old(mb.listBuffer.head) != nil ==> rsame(mb)
+//@   ensures[append@C01,C02,C10,C19] rkeep(mb)
+
+//@ define srcok(mb, bs) = forall j int :: (0 <= j && j < len(bs)) ==> (allocated(bs[j].base) && (mb.ringBuffer.rb == nil || bs[j].base != mb.ringBuffer.rb.buf.base))
+
+//@ func Buffer.Writev
+//@   props C01 C02 C10 C19
+//@   requires ewf(mb.ringBuffer) && srcok(mb, bs) && mb.maxStaticBytes > 0
+//@   ensures[wf] ewf(mb.ringBuffer)
+//@   ensures[order@C01,C02,C10,C19] old(mb.listBuffer.head) != nil ==> rsame(mb)
+//@   ensures[append@C01,C02,C10,C19] rkeep(mb)
+//@   loop 0
+//@     invariant ewf(mb.ringBuffer) && rsame(mb) && 0 <= rangeindex + 1 && rangeindex + 1 <= len(bs)
+//@   loop 1
+//@     invariant ewf(mb.ringBuffer) && old(mb.listBuffer.head) == nil && 0 <= rangeindex + 1 && rangeindex + 1 <= len(bs) && pos == imax(rangeindex, 0) && writable >= 0
+//@     invariant rkeep(mb)
+//@     invariant forall j int :: (0 <= j && j < len(bs)) ==> allocated(bs[j].base)
+//@     invariant forall j int :: (0 <= j && j < len(bs)) ==> (mb.ringBuffer.rb == nil || bs[j].base != mb.ringBuffer.rb.buf.base)
+//@   loop 2
+//@     invariant ewf(mb.ringBuffer) && old(mb.listBuffer.head) == nil && 0 <= pos
+//@     invariant rkeep(mb)
